@@ -322,6 +322,17 @@ pub fn probe_chars() -> Vec<char> {
 		'\u{80}', '\u{a0}', '\u{7ff}', '\u{800}', '\u{2028}', '\u{feff}', '\u{fffd}', '\u{ffff}', '\u{10000}', '\u{10ffff}',
 		'\u{660}', '\u{ff11}', '\u{ff21}', '\u{85}', '\u{3000}',
 	]);
+	// characters that collapse onto a JSON-significant ASCII character under a truncating cast
+	// (low 7, 8 or 16 bits equal) - catches `c as u8 == b'x'`-style comparisons
+	for a in "[]{},:\"\\/-+.eE0159 \t\n\rnulltruefalsbr".chars() {
+		for off in [0x80u32, 0x100, 0x7D00, 0x1_0000, 0x10_0000] {
+			if let Some(c) = char::from_u32(a as u32 + off) {
+				if !v.contains(&c) {
+					v.push(c);
+				}
+			}
+		}
+	}
 	v
 }
 
